@@ -1862,6 +1862,10 @@ func main() {
 		os.Exit(2)
 	}
 	stream := os.Args[1]
+	if stream == "coldchild" {
+		coldChild(os.Args[2:])
+		return
+	}
 	seed, n := uint64(1), 100
 	if len(os.Args) > 2 {
 		s, _ := strconv.ParseUint(os.Args[2], 10, 64)
@@ -1930,6 +1934,8 @@ func main() {
 		streamHist(r, n, pfx)
 	case "conc":
 		streamConc(r, n, pfx)
+	case "cold":
+		streamCold(r, n, pfx)
 	case "cli":
 		streamCli(r, n, pfx)
 	case "corpus":
